@@ -23,7 +23,7 @@ var c06Domain = []struct {
 	Name string
 	V    any
 }{
-	{"NULL", nil}, {"''", ""}, {"'abc'", "abc"}, {"'12'", "12"}, {"-1", -1}, {"0", 0}, {"1.5", 1.5}, {"1e20", 1e20},
+	{"NULL", nil}, {"''", ""}, {"'abc'", "abc"}, {"'12'", "12"}, {"-1", -1}, {"0", 0}, {"1.5", 1.5}, {"1e20", 1e20}, {"2", 2}, {"7", 7}, {"-2.5", -2.5},
 	{"true", true}, {"[]", []any{}}, {"[1,2]", []any{1, 2}}, {"{k:1}", map[string]any{"k": 1}},
 }
 
@@ -287,17 +287,21 @@ func c06RunFuncs(u fw.Unit) fw.Result {
 		}
 		name := f.GetName()
 		minA, maxA := f.GetMinArgs(), f.GetMaxArgs()
+		variadic := maxA < 0
 		if maxA < 0 || maxA > 3 {
 			maxA = minA
 			if maxA < 2 {
 				maxA = 2
+			}
+			if variadic && maxA < 3 {
+				maxA = 3 // variadic functions fold over their arguments: the third one is where a stale accumulator shows
 			}
 		}
 		if minA < 1 {
 			minA = 1
 		}
 		for arity := minA; arity <= maxA && arity <= 3; arity++ {
-			if arity == 3 && u.Tier == "quick" && maxA > minA {
+			if arity == 3 && u.Tier == "quick" && maxA > minA && !variadic {
 				continue
 			}
 			tuples := c06ArgTuples(arity)
